@@ -114,6 +114,7 @@ func (p *defaultPoll) Wait() (err error) {
 			continue
 		}
 		msec = 0
+		vp(vpPollFetched, unsafe.Pointer(p), int64(n), 0)
 		if p.Handler(p.events[:n]) {
 			return nil
 		}
